@@ -525,7 +525,7 @@ fn c07_branches() -> Vec<(Script, Enc)> {
 fn c07_cases(quick: bool) -> Vec<Case> {
     let br = c07_branches();
     let mut out = vec![];
-    for k in 2..=(if quick { 2 } else { 4 }) {
+    for k in 2..=(if quick { 3 } else { 4 }) {
         for a in product(&br, k) {
             if !a.iter().any(|(s, _)| s.has_answer()) {
                 continue;
